@@ -332,7 +332,46 @@ async def _tail(loop, cfg, size):
     return dict(nontrivial=True)
 
 
-FAMILIES = {"silent": _silent, "nodata": _nodata, "stall": _stall, "keepalive": _keepalive, "tail": _tail}
+async def _drain(loop, cfg, nreplies):
+    """The peer has sent QUIT behind commands whose (long) replies it never reads, and then stays connected and silent:
+    the session sits in its final flush.  It is dropped by the first applicable bound - socket_timeout after the reply
+    write blocked, idle_timeout after the last command - and never held beyond both."""
+    server = await make_server(loop, cfg)
+    watch = Watch(loop)
+    r, w = await asyncio.open_connection(HOST, PORT)
+    await asyncio.sleep(0.1)
+    w.transport.pause_reading()
+    w.write(("USER anonymous\r\n" + ("X" * 30000 + "\r\n") * nreplies + "QUIT\r\n").encode())
+    await asyncio.sleep(0.5)
+    idle, sock = cfg["idle_timeout"], cfg["socket_timeout"]
+    ctrl = server_ctrl(loop)[0]
+    t_cmd = watch.last_ctrl
+    detail = dict(cfg=cfg, replies_queued=nreplies, t_last_command=t_cmd, t_reply_write_blocked=ctrl.paused_at)
+    if ctrl.paused_at is None:
+        raise Violation("C16/drain/harness_server_never_blocked", detail)
+    bounds = []
+    if sock is not None:
+        bounds.append(("socket", ctrl.paused_at + sock))
+    if idle is not None:
+        bounds.append(("idle", t_cmd + idle))
+    await asyncio.sleep(60 if not bounds else max(b for _, b in bounds) - loop.time() + 5)
+    pending = [t for t in asyncio.all_tasks(loop) if "dispatcher" in repr(t.get_coro()) and not t.done()]
+    if not bounds:
+        if not pending:
+            raise Violation("C16/drain/dropped_without_applicable_timeout", detail)
+    else:
+        which, exp = min(bounds, key=lambda b: b[1])
+        detail["bound"] = which
+        if pending or server.connections:
+            raise Violation("C16/drain/not_released", dict(detail, expected=exp, checked_at=loop.time()))
+        if not ctrl._closing:
+            raise Violation("C16/drain/control_socket_not_closed", dict(detail, expected=exp))
+    w.close()
+    await asyncio.wait_for(server.close(), 1000)
+    return dict(nontrivial=True)
+
+
+FAMILIES = {"silent": _silent, "nodata": _nodata, "stall": _stall, "keepalive": _keepalive, "tail": _tail, "drain": _drain}
 
 
 def enumerate_cases(tier):
@@ -349,6 +388,8 @@ def enumerate_cases(tier):
                 out.append(("stall", ci, (direction, i)))
         for size in (1, 20000, 60000):
             out.append(("tail", ci, (size,)))
+        for n in (5, 40):
+            out.append(("drain", ci, (n,)))
         for margin in (0.5, 0.01):
             out.append(("keepalive", ci, (8, margin)))
     return out
